@@ -129,6 +129,7 @@ def run_history(case, ctx, on_step=None, compare_fresh=True, check_totals=True, 
     t0 = totals(system)
     cur = spec
     snaps_before = []   # calc snapshots before each edit (for undo)
+    specs_before = []   # the inputs before each edit, as the executor knows them
     for i, e in enumerate(hist):
         summary["steps"] += 1
         try:
@@ -141,6 +142,7 @@ def run_history(case, ctx, on_step=None, compare_fresh=True, check_totals=True, 
         ids_before = value_ids(reach_before)
         t_before = totals(system)
         snaps_before.append(snap_before)
+        specs_before.append(cur)
         sig_base = {"edit": E.kind(cur, e), "triggers": triggers(cur, after, e)}
         case_i = {"spec": spec, "id_seed": id_seed, "history": hist[:i + 1]}
         try:
@@ -236,7 +238,11 @@ def run_history(case, ctx, on_step=None, compare_fresh=True, check_totals=True, 
                               dict(sig_base, kind=kind_prefix + kind, first_stale=cls_attr))
                 summary["status"] = "violation"
                 return summary
-        if check_undo and "undo_of" in e and e["undo_of"] == i - 1:
+        if check_undo and "undo_of" in e and e["undo_of"] == i - 1 and cur != specs_before[i - 1]:
+            # the generator did not know the real state (an edit it expected to be refused was accepted): this step
+            # does not bring the inputs back to what they were, so it is an ordinary edit
+            summary["labels"].append("undo_not_exact")
+        elif check_undo and "undo_of" in e and e["undo_of"] == i - 1:
             d = snap.compare(snap_live, snaps_before[i - 1])
             if d:
                 ctx.violation(kind_prefix + "undo_mismatch", case_i,
